@@ -70,9 +70,9 @@ def run(ctx, chk):
         ub = ue
         # ---- E2 dependency set
         d = arith.deps(ub)
-        bound_l = '*self.bound_nsec'
-        drift_l = '*self.max_drift_ppb'
-        asof_l = '*self.as_of'
+        bound_l = fmt(m.leaf_self('bound_nsec'))
+        drift_l = fmt(m.leaf_self('max_drift_ppb'))
+        asof_l = fmt(m.leaf_self('as_of'))
         allowed = {bound_l, drift_l, asof_l}
         if mono is not None:
             allowed.add(fmt(mono))
